@@ -34,11 +34,11 @@ def isLineBreak (c : Char) : Bool :=
   inR c 10 13 || inR c 28 30 || c.toNat == 133 || c.toNat == 8232 || c.toNat == 8233
 
 /-- `[_A-Za-z]` -/
-def isIdStart (c : Char) : Bool := c == '_' || inR c 65 90 || inR c 97 122
+def isIdStart (c : Char) : Bool := c.toNat == 95 || inR c 65 90 || inR c 97 122
 /-- `[_A-Za-z0-9]` -/
 def isIdChar (c : Char) : Bool := isIdStart c || inR c 48 57
 /-- `[_A-Za-z0-9.]` -/
-def isFnChar (c : Char) : Bool := isIdChar c || c == '.'
+def isFnChar (c : Char) : Bool := isIdChar c || c.toNat == 46
 /-- `\w` of `re` on `str`, for code points ≤ U+00FF (see the file header). -/
 def isWordU (c : Char) : Bool :=
   isIdChar c || c.toNat == 170 || c.toNat == 178 || c.toNat == 179 || c.toNat == 181 || c.toNat == 185
